@@ -61,6 +61,9 @@ TAG_PHSP = "pvector-phsp-not-forwarded"
 TAG_ALIAS = "kmatrix-cache-aliasing"
 DEFAULT_PHSP = "PhaseSpaceFactor"
 RADII = (1, 2, "d")
+REF_RHO = {"PhaseSpaceFactor": "rho_standard", "PhaseSpaceFactorAbs": "rho_abs",
+           "PhaseSpaceFactorComplex": "rho_complex", "PhaseSpaceFactorSWave": "rho_swave",
+           "EqualMassPhaseSpaceFactor": "rho_equal_mass"}
 REAL_ABOVE_THRESHOLD = ("PhaseSpaceFactor", "PhaseSpaceFactorAbs", "PhaseSpaceFactorComplex")
 COND_MAX = 1e8
 CAP_3CH = ("RelativisticPVector with n_channels=3 not explored: _create_matrices(3) did not"
@@ -332,6 +335,27 @@ def _eval_numeric(case):
                     k, p = k_fn(s, par), p_fn(s, par)
                     rho = rho_fn(s, par) if rel else None
                     dev, cond = _residual(cfg, f_lib, k, p, rho)
+                    # value-level provenance: the K "given by the library's own
+                    # parametrisation" must be the K of the caller's phase-space factor and
+                    # of nothing else (independent numpy reference)
+                    ref_rho = REF_RHO.get(cfg.get("phsp")) if rel else None
+                    if ref_rho is not None and flag == flags[0]:
+                        k_ref = kmat.k_rel(s, par, cfg["L"], _radius_value(cfg["radius"], seed),
+                                           rho=getattr(kmat, ref_rho))
+                        scale_k = max(float(np.abs(k_ref).max()), 1e-300)
+                        dk = float(np.abs(k - k_ref).max()) / scale_k
+                        res["evaluations"] += 1
+                        bk = f"K=reference:{_bucket(dk, 1e-8)}"
+                        res["outcomes"][bk] = res["outcomes"].get(bk, 0) + 1
+                        if (dk != dk or dk >= 1e-8) and not any(
+                                v["tags"][0] == "oracle:k-reference" and v["detail"]["config"] == cfg
+                                for v in res["violations"]):
+                            res["violations"].append({
+                                "msg": (f"K from the library's parametrisation with phsp_factor={cfg['phsp']}"
+                                        f" differs from the reference K built from that factor alone by {dk:.3g}"
+                                        f" at s={s:.6g} for {key} mass_set={mk}"),
+                                "tags": ["oracle:k-reference", f"mass-set:{mk}"],
+                                "detail": {"config": cfg, "par": par, "s": s}})
                     if cond == cond and cond > COND_MAX:
                         res["outcomes"]["skipped:ill-conditioned"] = (
                             res["outcomes"].get("skipped:ill-conditioned", 0) + 1)
